@@ -109,12 +109,24 @@ def gen_case(rng, i, tier):
     return case
 
 
-def run(case, triples):
+def prepared_matcher(case, triples):
+    """a matcher for the case; when the case says so it is not new: it matched another trace before (given in the other
+    form), possibly in two steps with an expansion and a widening round (which leaves the matcher with the larger width)."""
     mt = build.make_matcher(build.make_inmem(case["map"]), case["cfg"])
     if case.get("pre_trace"):
-        # the matcher object is not new: it matched another trace (given in the other form) before
-        pre = case["pre_trace"] if triples else gen.with_time(case["pre_trace"])
-        mt.match(build.trace(pre))
+        pre = build.trace(case["pre_trace"] if triples else gen.with_time(case["pre_trace"]))
+        if len(pre) >= 2 and len(pre) % 2 == 0:
+            mt.match(pre[:len(pre) // 2])
+            mt.match(pre, expand=True)
+            if case["cfg"].get("width"):
+                mt.increase_max_lattice_width(case["cfg"]["width"] + 1)
+        else:
+            mt.match(pre)
+    return mt
+
+
+def run(case, triples):
+    mt = prepared_matcher(case, triples)
     tr = case["trace"]
     if triples:
         tr = gen.with_time(tr)
@@ -168,7 +180,7 @@ def check_case(ctx, case):
                "npfloat": [tuple(np.float64(x) for x in p) for p in pts], "tuple_of_tuples": tuple(pts)}[kind]
         ctx.count(f"container_runs:{kind}")
         try:
-            mt_c = build.make_matcher(build.make_inmem(case["map"]), case["cfg"])
+            mt_c = prepared_matcher(case, False)
             r_c = mt_c.match(alt)
             c_c = build.canon(mt_c, (list(r_c[0]), r_c[1]))
             if c_c != res[False]:
